@@ -524,4 +524,267 @@ theorem inv_run {p c} (evs : List Ev) (h : Inv p c) : Inv p (run .repaired p c e
   | nil => exact h
   | cons e es ih => exact ih (inv_step e h)
 
+/-! ### from the invariant to the observation predicate -/
+
+theorem oresOf_ok {st : Store} {t : Thread} {tp : Tup} {b : Bool} (h : oresOf st t = .ok tp b) :
+    ∃ m, t.res = some (.ok m) ∧ tp = m.tup ∧ b = st.maps.any (fun x => x.id == m.id) ∧ t.pc = .done := by
+  unfold oresOf at h
+  split at h
+  · simp at h
+  · rename_i hpc
+    simp at hpc
+    cases hr : t.res with
+    | none => simp [hr] at h
+    | some r => cases r <;> simp [hr] at h; exact ⟨_, rfl, h.1.symm, h.2.symm, hpc⟩
+
+theorem oresOf_rok {st : Store} {t : Thread} (h : oresOf st t = .rok) : t.res = some .rok ∧ t.pc = .done := by
+  unfold oresOf at h
+  split at h
+  · simp at h
+  · rename_i hpc
+    simp at hpc
+    cases hr : t.res with
+    | none => simp [hr] at h
+    | some r => cases r <;> simp [hr] at h; exact ⟨rfl, hpc⟩
+
+theorem oresOf_done {st : Store} {t : Thread} (h : oresOf st t ≠ .running) : t.pc = .done := by
+  unfold oresOf at h
+  split at h
+  · simp at h
+  · rename_i hpc; simpa using hpc
+
+theorem oresOf_of_ok {st : Store} {t : Thread} {m : Mapping} (h : t.res = some (.ok m)) (hpc : t.pc = .done) :
+    oresOf st t = .ok m.tup (st.maps.any (fun x => x.id == m.id)) := by
+  simp [oresOf, h, hpc]
+
+theorem countP_le_one {α} (p : α → Bool) (l : List α)
+    (h : ∀ (i j : Nat) (a b : α), l[i]? = some a → l[j]? = some b → p a = true → p b = true → i = j) : l.countP p ≤ 1 := by
+  induction l with
+  | nil => simp
+  | cons x xs ih =>
+    rw [List.countP_cons]
+    have ih' := ih (fun i j a b hi hj ha hb => by
+      have := h (i + 1) (j + 1) a b (by simpa using hi) (by simpa using hj) ha hb
+      omega)
+    cases hx : p x with
+    | false => simpa using ih'
+    | true =>
+      have : xs.countP p = 0 := by
+        rw [List.countP_eq_zero]
+        intro b hb hpb
+        obtain ⟨j, hj⟩ := List.mem_iff_getElem?.mp hb
+        have := h 0 (j + 1) x b (by simp) (by simpa using hj) hx (by simpa using hpb)
+        omega
+      simp [this]
+
+theorem find_id {l : List Mapping} {m : Mapping} (hn : l.Pairwise (fun a b => a.id ≠ b.id)) (hm : m ∈ l) :
+    l.find? (fun x => x.id == m.id) = some m := by
+  induction l with
+  | nil => simp at hm
+  | cons x xs ih =>
+    rw [List.pairwise_cons] at hn
+    rcases List.mem_cons.mp hm with h | h
+    · subst h; simp
+    · have hne : x.id ≠ m.id := hn.1 m h
+      have hb : (x.id == m.id) = false := by simpa using hne
+      rw [List.find?_cons, hb]
+      exact ih hn.2 h
+
+theorem holdsCore_of_inv {p : Params} {c : Config} (h : Inv p c) :
+    holdsCore p (c.ths.map callOf) (obs c) = true := by
+  have hres : ∀ r, r ∈ (obs c).results → ∃ (i : Nat) (t : Thread), c.ths[i]? = some t ∧ oresOf c.st t = r := by
+    intro r hr
+    simp only [obs, List.mem_map] at hr
+    obtain ⟨t, ht, rfl⟩ := hr
+    obtain ⟨i, hi⟩ := List.mem_iff_getElem?.mp ht
+    exact ⟨i, t, hi, rfl⟩
+  -- every ok result is the ghost mapping
+  have hok : ∀ (i : Nat) (t : Thread) tp b, c.ths[i]? = some t → oresOf c.st t = .ok tp b →
+      ∃ m, c.st.okMap = some m ∧ m.owner = i ∧ tp = m.tup ∧ t.kind = .activate ∧
+        m.tup = (t.listener, t.laddr, p.tc, p.ta) ∧ b = c.st.maps.any (fun x => x.id == m.id) := by
+    intro i t tp b hi ho
+    obtain ⟨m, hm, h1, h2, _⟩ := oresOf_ok ho
+    have := (h.t i t hi).resOk m hm
+    exact ⟨m, this.1, this.2.1, h1, this.2.2.1, this.2.2.2.1, h2⟩
+  have hmem : ∀ m, c.st.okMap = some m → m ∈ c.st.maps := by
+    intro m hm
+    have : m ∈ c.st.maps.filter (fun m => !m.pre) := by rw [h.g.exact, hm]; simp
+    exact (List.mem_filter.mp this).1
+  have hin : ∀ m, c.st.okMap = some m → c.st.maps.any (fun x => x.id == m.id) = true := by
+    intro m hm; rw [List.any_eq_true]; exact ⟨m, hmem m hm, by simp⟩
+  unfold holdsCore
+  simp only [Bool.and_eq_true]
+  refine ⟨⟨⟨⟨?_, ?_⟩, ?_⟩, ?_⟩, ?_⟩
+  · simp [obs]
+  · rw [decide_eq_true_eq]
+    apply countP_le_one
+    intro i j a b hi hj ha hb
+    simp only [obs, List.getElem?_map, Option.map_eq_some_iff] at hi hj
+    obtain ⟨ti, hti, rfl⟩ := hi
+    obtain ⟨tj, htj, rfl⟩ := hj
+    cases hoi : oresOf c.st ti <;> simp [hoi, ORes.isOk] at ha
+    cases hoj : oresOf c.st tj <;> simp [hoj, ORes.isOk] at hb
+    obtain ⟨m1, h1, h2, _⟩ := hok i ti _ _ hti hoi
+    obtain ⟨m2, h3, h4, _⟩ := hok j tj _ _ htj hoj
+    rw [h1] at h3; simp at h3; subst h3; omega
+  · rw [Bool.or_eq_true]
+    by_cases hc : (obs c).results.contains .rok = true
+    · right
+      rw [List.all_eq_true]
+      intro r hr
+      obtain ⟨i, t, hi, rfl⟩ := hres r hr
+      have hrok : .rok ∈ (obs c).results := by simpa using hc
+      obtain ⟨j, tj, hj, hoj⟩ := hres _ hrok
+      have hrd := ((h.t j tj hj).resRok (oresOf_rok hoj).1).1
+      cases ho : oresOf c.st t <;> simp [ORes.isOk]
+      obtain ⟨m, hm, _⟩ := hok i t _ _ hi ho
+      have := h.g.excl (by simp [hm]); simp [hrd] at this
+    · left; simpa using hc
+  · simp only [obs, List.zip_map', List.all_map, List.all_eq_true]
+    intro t ht
+    obtain ⟨i, hi⟩ := List.mem_iff_getElem?.mp ht
+    simp only [Function.comp]
+    cases ho : oresOf c.st t with
+    | ok tp b =>
+      obtain ⟨m, hm, _, h2, h3, h4, h5⟩ := hok i t _ _ hi ho
+      simp [callOf, h3, h2, h4, h5, hin m hm]
+    | rok =>
+      have := ((h.t i t hi).resRok (oresOf_rok ho).1).2
+      simp [callOf, this]
+    | err _ => simp
+    | running => simp
+  · split
+    · rfl
+    · rename_i hrun
+      have hdone : ∀ (i : Nat) (t : Thread), c.ths[i]? = some t → t.pc = .done := by
+        intro i t hi
+        apply oresOf_done
+        intro hr
+        apply hrun
+        simp only [obs, List.contains_iff_mem, List.mem_map]
+        exact ⟨t, List.mem_of_getElem? hi, hr⟩
+      have hpn : c.st.pending = none := by
+        cases hp : c.st.pending with
+        | none => rfl
+        | some m =>
+          obtain ⟨t, ht, hpp⟩ := h.pendOwner m hp
+          have := hdone _ t ht; simp [this, Pc.hasPending] at hpp
+      have hmaps : (obs c).maps = c.st.okMap.toList.map Mapping.tup := by
+        simp [obs, h.g.exact, hpn]
+      simp only [Bool.and_eq_true]
+      refine ⟨⟨⟨?_, ?_⟩, ?_⟩, ?_⟩
+      · rw [decide_eq_true_eq, hmaps]; cases c.st.okMap <;> simp
+      · rw [hmaps, List.all_eq_true]
+        intro tp htp
+        cases hm : c.st.okMap with
+        | none => simp [hm] at htp
+        | some m =>
+          simp [hm] at htp; subst htp
+          obtain ⟨t, ht, hr⟩ := h.okOwner m hm
+          rw [List.contains_iff_mem]
+          simp only [obs, List.mem_map]
+          refine ⟨t, List.mem_of_getElem? ht, ?_⟩
+          rw [oresOf_of_ok hr (hdone _ t ht), hin m hm]
+      · rw [List.all_eq_true]
+        intro r hr
+        obtain ⟨i, t, hi, rfl⟩ := hres r hr
+        cases ho : oresOf c.st t <;> simp only []
+        obtain ⟨m, hm, _, h2, _⟩ := hok i t _ _ hi ho
+        rw [hmaps, hm, h2]; simp
+      · cases hrec : (obs c).orec with
+        | none => rfl
+        | some r =>
+          simp only
+          rw [List.all_eq_true]
+          intro x hx
+          obtain ⟨i, t, hi, rfl⟩ := hres x hx
+          have hpres : c.st.present = true ∧ r = ORec.mk c.st.code.IsActivated c.st.code.IsRevoked c.st.code.ActivatedBy
+              (c.st.code.MappingID.map (fun id => (c.st.maps.find? (fun x => x.id == id)).map Mapping.tup)) := by
+            simp only [obs, orecOf] at hrec
+            split at hrec
+            · rename_i hp; simp at hrec; exact ⟨hp, hrec.symm⟩
+            · simp at hrec
+          cases ho : oresOf c.st t <;> simp only []
+          · obtain ⟨m, hm, _, h2, _, h4, _⟩ := hok i t _ _ hi ho
+            have := (h.g.okRec m hm).2.2
+            rcases this with hh | ⟨ha, hb, hc⟩
+            · simp [hpres.1] at hh
+            · have hf := find_id h.g.nodup (hmem m hm)
+              have hl : m.ListenClientID = m.tup.1 := rfl
+              rw [hpres.2]; simp [ha, hb, hc, hf, h2, hl]
+          · have hrd := ((h.t i t hi).resRok (oresOf_rok ho).1).1
+            rcases (h.g.revRec hrd).2 with hh | hh
+            · simp [hpres.1] at hh
+            · rw [hpres.2]; simp [hh]
+
+/-! ### initial configuration -/
+
+/-- Calls that have not started. -/
+def freshThreads (ths : List Thread) : Bool := ths.all (fun t => t.pc == .start && t.res == none)
+
+theorem inv_init {p : Params} (preC preN : Nat) (ths : List Thread) (hf : freshThreads ths = true) :
+    Inv p (init preC preN ths) := by
+  refine ⟨?_, ?_, ?_, ?_⟩
+  · refine ⟨?_, ?_, ?_, ?_, ?_, ?_, ?_, ?_⟩
+    · simp [init, initStore]
+    · intro x hx
+      simp only [init, initStore, List.mem_map, List.mem_range] at hx
+      obtain ⟨k, hk, rfl⟩ := hx
+      exact hk
+    · simp only [init, initStore, List.pairwise_map]
+      exact List.Pairwise.imp (fun h => h) List.nodup_range
+    · intro m hm; simp [init, initStore] at hm
+    · intro hm; simp [init, initStore] at hm
+    · intro hm; simp [init, initStore] at hm
+    · intro hm; simp [init, initStore] at hm
+    · intro hm; simp [init, initStore] at hm
+  · intro i t hi
+    have ht := List.mem_of_getElem? hi
+    simp only [freshThreads, List.all_eq_true, Bool.and_eq_true, beq_iff_eq] at hf
+    have := hf t ht
+    constructor <;> simp_all [init, initStore, Pc.inCS, Pc.critical, Pc.hasPending]
+  · intro m hm; simp [init, initStore] at hm
+  · intro m hm; simp [init, initStore] at hm
+
+theorem holdsCore_run {p : Params} (preC preN : Nat) (ths : List Thread) (evs : List Ev) (hf : freshThreads ths = true) :
+    holdsCore p ((run .repaired p (init preC preN ths) evs).ths.map callOf)
+      (obs (run .repaired p (init preC preN ths) evs)) = true :=
+  holdsCore_of_inv (inv_run evs (inv_init preC preN ths hf))
+
+/-- The calls (kind, client, address) of a configuration never change. -/
+theorem calls_step {p : Params} (v : Variant) (c : Config) (e : Ev) :
+    (step v p c e).ths.map callOf = c.ths.map callOf := by
+  cases e with
+  | create => simp only [step]; split <;> rfl
+  | expire => simp only [step]; split <;> rfl
+  | th i =>
+    simp only [step]
+    cases hti : c.ths[i]? with
+    | none => rfl
+    | some t =>
+      simp only
+      have hfin : ∀ (t : Thread) r, callOf (fin v t r) = callOf t := fun _ _ => rfl
+      have : callOf (tstep v p c.st i t).2 = callOf t := by
+        unfold tstep
+        (repeat' split) <;> first
+          | rfl
+          | (unfold claimStep; (repeat' split) <;> rfl)
+          | (unfold getStepA; (repeat' split) <;> rfl)
+          | (unfold getStepR; (repeat' split) <;> rfl)
+      rw [List.map_set, this]
+      apply List.ext_getElem?
+      intro j
+      by_cases hij : i = j
+      · subst hij
+        rw [List.getElem?_set_self (by
+          rcases List.getElem?_eq_some_iff.mp hti with ⟨hl, _⟩; simpa using hl)]
+        simp [hti]
+      · rw [List.getElem?_set_ne hij]
+
+theorem calls_run {p : Params} (v : Variant) (c : Config) (evs : List Ev) :
+    (run v p c evs).ths.map callOf = c.ths.map callOf := by
+  induction evs generalizing c with
+  | nil => rfl
+  | cons e es ih => exact (ih (step v p c e)).trans (calls_step v c e)
+
 end Tunnox.C06
